@@ -237,6 +237,7 @@ type HarnessRun struct {
 	RaceCheck    bool
 	Yields       map[int]bool // enabled hook points (nil = all)
 	Fixed        map[string][]uint64 // engine-side replay: concrete values for every input
+	FixedSched   []int               // engine-side replay: the thread chosen at every scheduling point
 	QueryTimeout int // one-shot budget per query (ms)
 	IncrTimeout  int // incremental budget per query (ms) before falling back to one-shot
 	Deadline     time.Time
